@@ -195,8 +195,11 @@ func (d *FormatDecoder) Next() (interface{}, error) {
 		return e, nil
 
 	case CaFormatUser:
-		b := make([]byte, hdr.Size-16)
-		if _, err = io.ReadFull(d.r, b); err != nil {
+		if hdr.Size < 17 { // header plus at least the terminating 0 byte
+			return nil, InvalidFormat{"element size too small"}
+		}
+		b, err := d.r.ReadN(hdr.Size - 16)
+		if err != nil {
 			return nil, err
 		}
 		// Strip off the 0 byte
@@ -204,8 +207,11 @@ func (d *FormatDecoder) Next() (interface{}, error) {
 		return FormatUser{FormatHeader: hdr, Name: string(b)}, nil
 
 	case CaFormatGroup:
-		b := make([]byte, hdr.Size-16)
-		if _, err = io.ReadFull(d.r, b); err != nil {
+		if hdr.Size < 17 { // header plus at least the terminating 0 byte
+			return nil, InvalidFormat{"element size too small"}
+		}
+		b, err := d.r.ReadN(hdr.Size - 16)
+		if err != nil {
 			return nil, err
 		}
 		// Strip off the 0 byte
@@ -213,8 +219,11 @@ func (d *FormatDecoder) Next() (interface{}, error) {
 		return FormatGroup{FormatHeader: hdr, Name: string(b)}, nil
 
 	case CaFormatXAttr:
-		b := make([]byte, hdr.Size-16)
-		if _, err = io.ReadFull(d.r, b); err != nil {
+		if hdr.Size < 17 { // header plus at least the terminating 0 byte
+			return nil, InvalidFormat{"element size too small"}
+		}
+		b, err := d.r.ReadN(hdr.Size - 16)
+		if err != nil {
 			return nil, err
 		}
 		// Strip off the 0 byte
@@ -222,8 +231,11 @@ func (d *FormatDecoder) Next() (interface{}, error) {
 		return FormatXAttr{FormatHeader: hdr, NameAndValue: string(b)}, nil
 
 	case CaFormatSELinux:
-		b := make([]byte, hdr.Size-16)
-		if _, err = io.ReadFull(d.r, b); err != nil {
+		if hdr.Size < 17 { // header plus at least the terminating 0 byte
+			return nil, InvalidFormat{"element size too small"}
+		}
+		b, err := d.r.ReadN(hdr.Size - 16)
+		if err != nil {
 			return nil, err
 		}
 		// Strip off the 0 byte
@@ -231,8 +243,11 @@ func (d *FormatDecoder) Next() (interface{}, error) {
 		return FormatSELinux{FormatHeader: hdr, Label: string(b)}, nil
 
 	case CaFormatFilename:
-		b := make([]byte, hdr.Size-16)
-		if _, err = io.ReadFull(d.r, b); err != nil {
+		if hdr.Size < 17 { // header plus at least the terminating 0 byte
+			return nil, InvalidFormat{"element size too small"}
+		}
+		b, err := d.r.ReadN(hdr.Size - 16)
+		if err != nil {
 			return nil, err
 		}
 		// Strip off the 0 byte
@@ -240,8 +255,11 @@ func (d *FormatDecoder) Next() (interface{}, error) {
 		return FormatFilename{FormatHeader: hdr, Name: string(b)}, nil
 
 	case CaFormatSymlink:
-		b := make([]byte, hdr.Size-16)
-		if _, err = io.ReadFull(d.r, b); err != nil {
+		if hdr.Size < 17 { // header plus at least the terminating 0 byte
+			return nil, InvalidFormat{"element size too small"}
+		}
+		b, err := d.r.ReadN(hdr.Size - 16)
+		if err != nil {
 			return nil, err
 		}
 		// Strip off the 0 byte
@@ -264,6 +282,9 @@ func (d *FormatDecoder) Next() (interface{}, error) {
 		return e, nil
 
 	case CaFormatPayload:
+		if hdr.Size < 16 || hdr.Size-16 > math.MaxInt64 {
+			return nil, InvalidFormat{"invalid payload size"}
+		}
 		size := hdr.Size - 16
 		r := io.LimitReader(d.r, int64(size))
 		// Record the reader to be read fully on the next iteration if the caller
@@ -272,8 +293,11 @@ func (d *FormatDecoder) Next() (interface{}, error) {
 		return FormatPayload{FormatHeader: hdr, Data: r}, nil
 
 	case CaFormatFCaps:
-		b := make([]byte, hdr.Size-16)
-		if _, err = io.ReadFull(d.r, b); err != nil {
+		if hdr.Size < 16 {
+			return nil, InvalidFormat{"element size too small"}
+		}
+		b, err := d.r.ReadN(hdr.Size - 16)
+		if err != nil {
 			return nil, err
 		}
 		return FormatFCaps{FormatHeader: hdr, Data: b}, nil
@@ -288,8 +312,11 @@ func (d *FormatDecoder) Next() (interface{}, error) {
 		if err != nil {
 			return nil, err
 		}
-		b := make([]byte, hdr.Size-32)
-		if _, err = io.ReadFull(d.r, b); err != nil {
+		if hdr.Size < 33 { // header, id, permissions plus at least the terminating 0 byte
+			return nil, InvalidFormat{"element size too small"}
+		}
+		b, err := d.r.ReadN(hdr.Size - 32)
+		if err != nil {
 			return nil, err
 		}
 		// Strip off the 0 byte
@@ -307,8 +334,11 @@ func (d *FormatDecoder) Next() (interface{}, error) {
 		if err != nil {
 			return nil, err
 		}
-		b := make([]byte, hdr.Size-32)
-		if _, err = io.ReadFull(d.r, b); err != nil {
+		if hdr.Size < 33 { // header, id, permissions plus at least the terminating 0 byte
+			return nil, InvalidFormat{"element size too small"}
+		}
+		b, err := d.r.ReadN(hdr.Size - 32)
+		if err != nil {
 			return nil, err
 		}
 		// Strip off the 0 byte
@@ -345,23 +375,29 @@ func (d *FormatDecoder) Next() (interface{}, error) {
 		return e, nil
 
 	case CaFormatGoodbye:
-		n := (hdr.Size - 16) / 24
-		items := make([]FormatGoodbyeItem, n)
-		e := FormatGoodbye{FormatHeader: hdr, Items: items}
-		for i := uint64(0); i < n; i++ {
-			items[i].Offset, err = d.r.ReadUint64()
-			if err != nil {
-				return nil, err
-			}
-			items[i].Size, err = d.r.ReadUint64()
-			if err != nil {
-				return nil, err
-			}
-			items[i].Hash, err = d.r.ReadUint64()
-			if err != nil {
-				return nil, err
-			}
+		if hdr.Size < 16 {
+			return nil, InvalidFormat{"element size too small"}
 		}
+		n := (hdr.Size - 16) / 24
+		// Grow the list as items arrive, the size field can't be trusted
+		var items []FormatGoodbyeItem
+		for i := uint64(0); i < n; i++ {
+			var item FormatGoodbyeItem
+			item.Offset, err = d.r.ReadUint64()
+			if err != nil {
+				return nil, err
+			}
+			item.Size, err = d.r.ReadUint64()
+			if err != nil {
+				return nil, err
+			}
+			item.Hash, err = d.r.ReadUint64()
+			if err != nil {
+				return nil, err
+			}
+			items = append(items, item)
+		}
+		e := FormatGoodbye{FormatHeader: hdr, Items: items}
 		// Ensure we have the tail marker in the last item
 		if len(items) < 1 || items[len(items)-1].Hash != CaFormatGoodbyeTailMarker {
 			return nil, InvalidFormat{"tail marker not found"}
